@@ -8,6 +8,7 @@ CONSTANTS
   Small = TRUE
   Avoid = FALSE
   SimK = 0
+  AccW = TRUE
   Acts = {"dset", "oset", "rebind", "ddel", "batch", "lset", "ldel", "slice", "lins", "inplace", "ctor"}
 CONSTRAINT LevelBound
 VIEW view
